@@ -25,5 +25,6 @@ open Irismod Irismod.Service Irismod.Props.C08
 #print axioms answered_is_final
 #print axioms expires_at_expiration_height
 #print axioms not_expired_before_its_height
+#print axioms no_stale_entry_step
 -- non-vacuity: in the witness state the due batch is issued (a request becomes active), answering it is accepted exactly once
 #eval s!"nonvacuous {let s := newBatch w5 "c"; let rid : ReqId := ⟨"c", 2, 20, 0⟩; s.active == [rid] && (match stepRespond s "A0" (some rid) 200 .good true with | .ok s' => s'.active.isEmpty && (match stepRespond s' "A0" (some rid) 200 .good true with | .ok _ => false | .error _ => true) | .error _ => false)}"
